@@ -217,6 +217,46 @@ def scaled_attr(kind, op, tag, diag):
 
 
 # ---------------------------------------------------------------------------------------------
+# elastic family (C05)
+
+NWT = {8: ("i8", "u8"), 32: ("i32", "u32"), 64: ("i64", "u64")}
+ELASTIC_CORE = ["E<3>, E<3>", "E<7>, E<8, u32>", "E<31>, E<31>", "E<31>, E<32, u32>", "E<40>, E<31>", "E<31>, E<40>",
+                "E<63>, E<63>", "E<63, u64>, E<1>", "E<15, i8>, E<16, u8>", "E<20>, i32", "u16, E<9>", "E<64, u32>, E<62>",
+                "E<33>, E<2, u8>", "E<1>, E<1, u8>", "E<8, i64>, E<8, i64>"]
+
+
+def elastic_jobs(tier):
+    import random
+    path = vlib.gen_file("elastic", "GenElastic.tla", "GenElastic.cfg", deps=("BigInt.tla", "CxxInt.tla", "CnlTypes.tla", "SemElastic.tla"))
+    rows = sorted(tuple(int(x) for x in l.split()) for l in open(path) if len(l.split()) == 6)
+    rnd = random.Random(vlib.seed() * 7919 + 5)
+    pick = rnd.sample(rows, 40 if tier == "quick" else 400)
+    pairs = list(ELASTIC_CORE)
+    for ld, ls, lnw, rd, rs, rnw in pick:
+        pairs.append("E<%d, %s>, E<%d, %s>" % (ld, NWT[lnw][0 if ls else 1], rd, NWT[rnw][0 if rs else 1]))
+    items = ["el_pair<%s>(out, %d);" % (p, k + 1) for k, p in enumerate(pairs)]
+    nfiles = vlib.NCPU if tier == "quick" else 2 * vlib.NCPU
+    jobs = []
+    for k in range(nfiles):
+        body = "\n".join(items[k::nfiles]) + "\n"
+        if not body.strip():
+            continue
+        p = os.path.join(vlib.BUILD, "gen", "elastic-inst-%s.inc" % vlib.sha(body))
+        if not os.path.exists(p):
+            with open(p + ".tmp", "w") as f:
+                f.write(body)
+            os.replace(p + ".tmp", p)
+        jobs.append(dict(src="h_elastic.cpp", cc="gcc", tag="el-gcc-%d" % k, defines=['VERIF_INST_FILE="%s"' % p]))
+        if tier == "thorough" or (k + vlib.seed()) % 4 == 0:
+            jobs.append(dict(src="h_elastic.cpp", cc="clang", tag="el-clang-%d" % k, defines=['VERIF_INST_FILE="%s"' % p]))
+    return jobs
+
+
+def elastic_attr(kind, op, tag, diag):
+    return ["C05"]
+
+
+# ---------------------------------------------------------------------------------------------
 # rounding family (C08 division, other operators; C09 narrowing conversions)
 
 def rounding_jobs(tier):
@@ -233,12 +273,15 @@ def rounding_attr(kind, op, tag, diag):
 
 
 FAMILIES = {
+    "elastic": dict(jobs=elastic_jobs, attr=elastic_attr),
     "rounding": dict(jobs=rounding_jobs, attr=rounding_attr),
     "overflow": dict(jobs=overflow_jobs, attr=overflow_attr),
     "scaled": dict(jobs=scaled_jobs, attr=scaled_attr),
 }
 
 MCS = {
+    "elastic": dict(module="mc/MC_Elastic.tla", cfg_quick="mc/MC_Elastic_quick.cfg",
+                    cfg_thorough="mc/MC_Elastic_thorough.cfg", xmx="8g", timeout=2400),
     "rounding": dict(module="mc/MC_Rounding.tla", cfg_quick="mc/MC_Rounding_quick.cfg",
                      cfg_thorough="mc/MC_Rounding_thorough.cfg", xmx="8g", timeout=2400),
     "overflow": dict(module="mc/MC_Overflow.tla", cfg_quick="mc/MC_Overflow_quick.cfg",
@@ -324,6 +367,20 @@ CHECKS = {
                "conversion forms that do not compile in the library (scaled -> plain integer under nearest, non-narrowing "
                "scaled -> scaled under nearest) are not exercised; rounding_integer/static_number construction is covered "
                "through C11's histories"),
+    "C05": chk(["elastic"], ["elastic"],
+               "events = +,-,*,/,%,unary -, << / >> by a constant, numeric_limits on pairs of elastic_integer types from the "
+               "TLC-enumerated lattice (GenElastic: digits 1..64 x signedness x narrowest 8/32/64 bit, fixed core + VERIF_SEED "
+               "sample) x in-range operand values (extremes +-(2^D-1), TLC boundary sets, random); non-trivial = an operand "
+               "uses all its digits or does not survive the cast to the operation's representation",
+               "TLA+ spec (SemElastic: policy digit rules, exact result, symmetric declared range; as-coded evaluation in "
+               "result_tag::rep through CxxInt) checked by TLC: trace validation of recorded executions + exhaustive "
+               "small-machine model check MC_Elastic",
+               "every recorded result must be the exact mathematical result and lie in the range the result type declares "
+               "(numeric_limits == +-(2^D - 1) is checked per type); MC_Elastic proves on a scaled-down machine, for all digit "
+               "pairs <= 5 (7 thorough) and all operand values, that the as-coded evaluation is exact except for / and % with a "
+               "narrowed operand; recorded deviations must equal the as-coded model to count as the known finding.",
+               "comparisons of elastic types are judged under C03; elastic_scaled_integer arithmetic under C01/C02 (values) "
+               "with elastic reps; storage wider than 128 bits (wide_integer narrowest) not exercised here"),
     "C06": chk(["overflow"], ["overflow"],
                "events = one tagged operation (operate<Op,Tag>, overflow_integer operators, convert<Tag,Dest>) on a pair of "
                "built-in integer types x operand values (8-bit lhs exhaustive x TLC boundary set; wider: TLC boundary set^2 + "
